@@ -67,7 +67,7 @@ static int verif_rec_snprintf(char *dst, size_t size, const char *fmt, ...)
 	char conv = fl > 0 ? fmt[fl - 1] : 0;
 	c->kind = 0; c->ival = 0; c->dval = 0; c->sval = 0;
 	if (conv == 's') { c->kind = K_STR; c->sval = va_arg(ap, const char *); }
-	else if (conv == 'c') { c->kind = K_CHAR; c->ival = va_arg(ap, int); }
+	else if (conv == 'c') { c->kind = K_CHAR; c->ival = va_arg(ap, unsigned char); }   /* CBMC keeps the unpromoted type of the actual argument */
 	else if (conv == 'p') { c->kind = K_PTR; c->ival = (long long)va_arg(ap, ptrdiff_t); }
 	else if (conv == 'e' || conv == 'E' || conv == 'f' || conv == 'F' || conv == 'g' || conv == 'G' || conv == 'a' || conv == 'A') { c->kind = K_DOUBLE; c->dval = va_arg(ap, double); }
 	else if (ls >= 2 || fmt[fl >= 2 ? fl - 2 : 0] == 'z' || fmt[fl >= 2 ? fl - 2 : 0] == 't' || fmt[fl >= 2 ? fl - 2 : 0] == 'j') { c->kind = K_LLONG; c->ival = va_arg(ap, long long); }
